@@ -570,6 +570,13 @@ fn handle(req: &Value) -> Value {
                 .collect();
             json!({ "ok": rows })
         }
+        "crate_name" => {
+            let p = req.get("path").and_then(|v| v.as_str()).unwrap_or("");
+            match typeshare_core::language::CrateName::find_crate_name(std::path::Path::new(p)) {
+                Some(c) => json!({ "ok": c.to_string() }),
+                None => json!({ "ok": null }),
+            }
+        }
         "parse" => op_parse(req),
         "generate" => op_generate(req),
         "format_type" => op_format_type(req),
